@@ -1,8 +1,137 @@
+import Corro.Model.Authz
 import Driver.Util
-/-! Driver stub for C17: not built yet. -/
+/-! Line-protocol driver for C17.
+
+`req <cfg:token|none> <METHOD> <path> <hdr-shape>`  → `pass` | `401` | `400-hdr`
+     what the authz middleware does with the request (every route is served through it, theorem
+     `all_routes_guarded`); `pass` = the inner handler runs, its own status is not modelled.
+`query <cfg> <id> <class:r|w|e|v|u> <hex sql>`      → `ran` | `refused` | `prep-error` | `not-run` | `ran|prep-error`
+     /v1/queries with the right credentials; class = sqlite's verdict on the text (trusted input of the
+     model): r = prepares and `stmt_readonly`, w = prepares and not readonly, e = does not prepare,
+     v = e or w, u = r or e, depending on the pooled read connection's state left behind by earlier
+     requests (`PRAGMA writable_schema = ON`, an open `BEGIN`).
+`sub <cfg> <id> <class:s|n|x> <hex sql>`            → `accepted` | `refused`
+     /v1/subscriptions; s = single SELECT the matcher accepts, n = first command is not a SELECT (or no
+     parse), x = a SELECT that later checks refuse.
+
+The header shapes are expanded to raw header values by the table below (the same table is in
+harness/src/c17.rs) and parsed by the model's `parseHeader`. -/
 namespace Driver.C17
+open Corro.Authz
+
+def token : String := "c17-S3cr3t.Tok_en"
+def tokenUpper : String := "C17-S3CR3T.TOK_EN"
+def tokenLower : String := "c17-s3cr3t.tok_en"
+def wrongTok : String := "not-the-token"
+def basicVal : String := "Basic dXNlcjpjMTctUzNjcjN0LlRva19lbg=="
+
+def hexVal (c : Char) : Option Nat :=
+  if '0' ≤ c ∧ c ≤ '9' then some (c.toNat - '0'.toNat)
+  else if 'a' ≤ c ∧ c ≤ 'f' then some (c.toNat - 'a'.toNat + 10)
+  else none
+
+def hexBytes : List Char → Option (List Nat)
+  | [] => some []
+  | [_] => none
+  | a :: b :: r => do
+    let x ← hexVal a; let y ← hexVal b; let t ← hexBytes r
+    pure ((x * 16 + y) :: t)
+
+/-- raw header value given in the op line: non-empty, bytes a server accepts in a field value
+(0x20..0x7e, 0x80..0xff), no leading/trailing whitespace (HTTP strips it) -/
+def rawOk (bs : List Nat) : Bool :=
+  !bs.isEmpty && bs.all (fun b => (32 ≤ b && b < 127) || (128 ≤ b && b < 256))
+    && bs.head? != some 32 && bs.getLast? != some 32
+
+/-- shape name → the Authorization header values sent, in order -/
+def shapeValues (s : String) : Option (List (List Char)) :=
+  let one (v : String) := some [v.toList]
+  match s with
+  | "missing" => some []
+  | "proxy-auth" => some []            -- `Proxy-Authorization: Bearer <token>` only
+  | "empty" => one ""
+  | "basic" => one basicVal
+  | "basic-token" => one ("Basic " ++ token)
+  | "token-only" => one token
+  | "scheme-only" => one "Bearer"
+  | "no-space" => one ("Bearer" ++ token)
+  | "tab-sep" => one ("Bearer\t" ++ token)
+  | "wrong" => one ("Bearer " ++ wrongTok)
+  | "prefix" => one ("Bearer " ++ String.ofList (token.toList.dropLast))
+  | "prefix1" => one ("Bearer " ++ String.ofList (token.toList.take 1))
+  | "suffix" => one ("Bearer " ++ token ++ "x")
+  | "case" => one ("Bearer " ++ tokenUpper)
+  | "case-lower" => one ("Bearer " ++ tokenLower)
+  | "lowercase-scheme" => one ("bearer " ++ token)
+  | "uppercase-scheme" => one ("BEARER " ++ token)
+  | "extra-space" => one ("Bearer  " ++ token)
+  | "trailing-junk" => one ("Bearer " ++ token ++ " x")
+  | "quoted" => one ("Bearer \"" ++ token ++ "\"")
+  | "token-twice" => one ("Bearer " ++ token ++ token)
+  | "comma-list" => one ("Bearer " ++ wrongTok ++ ", Bearer " ++ token)
+  | "non-ascii" => some [("Bearer " ++ token).toList ++ [Char.ofNat 233]]
+  | "dup-wrong-correct" => some [("Bearer " ++ wrongTok).toList, ("Bearer " ++ token).toList]
+  | "dup-correct-wrong" => some [("Bearer " ++ token).toList, ("Bearer " ++ wrongTok).toList]
+  | "dup-basic-correct" => some [basicVal.toList, ("Bearer " ++ token).toList]
+  | "correct" => one ("Bearer " ++ token)
+  | _ =>
+    if s.startsWith "raw:" then do
+      let bs ← hexBytes (s.toList.drop 4)
+      if rawOk bs then pure [bs.map Char.ofNat] else none
+    else none
+
+def cfgOf : String → Option (Option Token)
+  | "token" => some (some token)
+  | "none" => some none
+  | _ => none
+
+def methodOk (m : String) : Bool := !m.isEmpty && m.toList.all (fun c => 'A' ≤ c ∧ c ≤ 'Z')
+def pathOk (p : String) : Bool := p.startsWith "/" && p.toList.all (fun c => 33 ≤ c.toNat && c.toNat < 127)
+def hexOk (h : String) : Bool := (hexBytes h.toList).isSome
+
+/-- the inner handler of the model run: status 0 marks "the handler ran" -/
+def probe : Handler Unit := fun st => (0, st)
+
+def run (toks : List String) : Option String :=
+  match toks with
+  | ["req", cfg, m, p, shape] => do
+    let cfg ← cfgOf cfg
+    if !(methodOk m && pathOk p) then none
+    let vals ← shapeValues shape
+    let (status, _) := serve true cfg (parseHeader vals) probe ()
+    pure (if status = 0 then "pass" else if status = 401 then "401" else if status = 400 then "400-hdr" else s!"status {status}")
+  | ["query", cfg, _id, cls, hex] => do
+    let _ ← cfgOf cfg
+    if !hexOk hex then none
+    if cls = "v" then
+      -- the text either does not prepare or prepares to a non-readonly statement: not executed in both
+      let (s1, _) := queryHandler Prep.error probe ()
+      let (s2, _) := queryHandler (Prep.ok false) probe ()
+      pure (if s1 ≠ 0 ∧ s2 ≠ 0 then "not-run" else "ran")
+    else if cls = "u" then
+      -- flag-only statement that sqlite compiles or not depending on connection state: never the refusal
+      let (s1, _) := queryHandler Prep.error probe ()
+      let (s2, _) := queryHandler (Prep.ok true) probe ()
+      pure (if s1 = 400 ∧ s2 = 0 then "ran|prep-error" else "refused")
+    else
+    let p ← (match cls with
+      | "r" => some (Prep.ok true) | "w" => some (Prep.ok false) | "e" => some Prep.error | _ => none)
+    let (status, _) := queryHandler p probe ()
+    pure (if status = 0 then "ran" else match p with | .error => "prep-error" | _ => "refused")
+  | ["sub", cfg, _id, cls, hex] => do
+    let _ ← cfgOf cfg
+    if !hexOk hex then none
+    -- s: select, later checks pass; x: select, later checks refuse; n: not a select
+    let (isSel, laterOk) ← (match cls with
+      | "s" => some (true, true) | "x" => some (true, false) | "n" => some (false, true) | _ => none)
+    let later : Handler Unit := fun st => (if laterOk then 0 else 500, st)
+    let (status, _) := subHandler isSel later ()
+    pure (if status = 0 then "accepted" else "refused")
+  | _ => none
+
 abbrev State := Unit
 def init : State := ()
-def step (st : State) (_toks : List String) : Option (State × String) := some (st, "bad-op")
+def step (st : State) (toks : List String) : Option (State × String) := (run toks).map (st, ·)
+
 end Driver.C17
 def main : IO Unit := Driver.runLoop Driver.C17.init Driver.C17.step
